@@ -232,6 +232,19 @@ def r10i(F):
 		def is_handler_result(pl):
 			return 'ReplayEvent' in (fu.locals[pl[0]].get('ty') or '') and 'Result<' in (fu.locals[pl[0]].get('ty') or '')
 		sw = variant_switch_edges(fu, is_handler_result, ['Ok', 'Err'])
+		# the same test written with is_ok() / is_err()
+		exr = Expr(fu)
+		for b2, ci2 in fu.calls():
+			f2 = norm(ci2.get('f') or '')
+			if f2.endswith(('Result::is_ok', 'Result::is_err')) and ci2['args']:
+				a0 = ci2['args'][0]
+				ids = set(expr_local_ids(exr.of_operand(a0))) | ({a0[1][0]} if a0[0] in ('c', 'm') and a0[1] else set())
+				if any('ReplayEvent' in (fu.locals[l].get('ty') or '') for l in ids):
+					for d in call_decisions(fu, [b2], 'bool'):
+						t_e = d.true_edges if f2.endswith('is_ok') else d.false_edges
+						f_e = d.false_edges if f2.endswith('is_ok') else d.true_edges
+						if t_e and f_e:
+							sw.append((t_e[0][0], {'Ok': t_e[0][1], 'Err': f_e[0][1]}, f_e[0][1]))
 		short = cn.split('::')[-1] if '{closure' not in cn else cn.split('::')[-2]
 		if not sw:
 			out.append(Result('10.i', False, 'anchor:handler-result@' + short, '%s: no switch on the event handler result found' % short, where=F.where(cn)))
